@@ -386,8 +386,71 @@ func (s *Server) Start(ctx context.Context) error {
 	)
 
 	go s.receiveLoop(ctx)
+	go s.leaseCleanup(ctx)
 
 	return nil
+}
+
+// leaseCleanup periodically removes leases whose valid lifetime has run out
+func (s *Server) leaseCleanup(ctx context.Context) {
+	ticker := time.NewTicker(time.Minute)
+	defer ticker.Stop()
+
+	for {
+		select {
+		case <-ctx.Done():
+			return
+		case <-ticker.C:
+			if n := s.expireLeases(); n > 0 {
+				s.logger.Info("Cleaned up expired DHCPv6 leases", zap.Int("count", n))
+			}
+		}
+	}
+}
+
+// expireLeases removes every lease whose valid lifetime has run out and returns
+// its address and prefix to the pools. It returns the number of leases removed.
+func (s *Server) expireLeases() int {
+	s.leasesMu.Lock()
+	defer s.leasesMu.Unlock()
+
+	removed := 0
+	for duid, lease := range s.leases {
+		if s.expireLeaseLocked(duid, lease) {
+			removed++
+		}
+	}
+	return removed
+}
+
+// expireClientLease reclaims the client's own lease if its valid lifetime has
+// run out. It is called before a message of that client is served: what is
+// advertised to it next is then a fresh allocation, not one that the next
+// sweep would hand to another client.
+func (s *Server) expireClientLease(duid string) {
+	s.leasesMu.Lock()
+	defer s.leasesMu.Unlock()
+
+	if lease, ok := s.leases[duid]; ok {
+		s.expireLeaseLocked(duid, lease)
+	}
+}
+
+// expireLeaseLocked removes the lease if its valid lifetime has run out.
+// leasesMu must be held.
+func (s *Server) expireLeaseLocked(duid string, lease *Lease) bool {
+	if lease.ValidEnd.IsZero() || time.Now().Before(lease.ValidEnd) {
+		return false
+	}
+	ctx := context.Background()
+	if lease.Address != nil {
+		s.releaseAddress(ctx, duid)
+	}
+	if lease.Prefix != nil {
+		s.releasePrefix(ctx, duid)
+	}
+	delete(s.leases, duid)
+	return true
 }
 
 // Stop stops the DHCPv6 server
@@ -434,6 +497,11 @@ func (s *Server) receiveLoop(ctx context.Context) {
 
 // handleMessage handles a DHCPv6 message
 func (s *Server) handleMessage(msg *Message, addr *net.UDPAddr) {
+	// A lease whose valid lifetime has run out no longer exists
+	if clientIDOpt := msg.GetOption(OptClientID); clientIDOpt != nil {
+		s.expireClientLease(string(clientIDOpt.Data))
+	}
+
 	switch msg.Type {
 	case MsgTypeSolicit:
 		atomic.AddUint64(&s.solicitReceived, 1)
@@ -614,10 +682,16 @@ func (s *Server) handleRenew(msg *Message, addr *net.UDPAddr) {
 
 	clientDUID := string(clientIDOpt.Data)
 
-	// Look up lease
-	s.leasesMu.RLock()
+	// Look up the lease and extend it in one critical section, so that the
+	// expiry sweep cannot remove it in between
+	s.leasesMu.Lock()
 	lease, ok := s.leases[clientDUID]
-	s.leasesMu.RUnlock()
+	if ok {
+		lease.LastRenew = time.Now()
+		lease.PreferredEnd = time.Now().Add(time.Duration(s.getPreferredLifetime()) * time.Second)
+		lease.ValidEnd = time.Now().Add(time.Duration(s.getValidLifetime()) * time.Second)
+	}
+	s.leasesMu.Unlock()
 
 	if !ok {
 		// No binding - send NoBinding status
@@ -633,15 +707,6 @@ func (s *Server) handleRenew(msg *Message, addr *net.UDPAddr) {
 		s.sendResponse(response, addr)
 		return
 	}
-
-	// Extend lease
-	s.leasesMu.Lock()
-	lease.LastRenew = time.Now()
-	if s.addressPool != nil {
-		lease.PreferredEnd = time.Now().Add(time.Duration(s.addressPool.preferredLifetime) * time.Second)
-		lease.ValidEnd = time.Now().Add(time.Duration(s.addressPool.validLifetime) * time.Second)
-	}
-	s.leasesMu.Unlock()
 
 	response := s.buildReply(msg, clientDUID, addr.IP)
 	if response != nil {
@@ -985,6 +1050,8 @@ func (s *Server) buildReply(msg *Message, clientDUID string, clientAddr net.IP) 
 
 				s.leasesMu.Lock()
 				lease.Prefix = prefix
+				lease.PreferredEnd = time.Now().Add(time.Duration(preferred) * time.Second)
+				lease.ValidEnd = time.Now().Add(time.Duration(valid) * time.Second)
 				s.leasesMu.Unlock()
 
 				prefixLen, _ := prefix.Mask.Size()
@@ -1124,6 +1191,10 @@ func (s *Server) allocateAddress(ctx context.Context, clientDUID string, iaid ui
 	// Fall back to legacy pool
 	if s.addressPool != nil {
 		addr := s.addressPool.Allocate(clientDUID)
+		if addr == nil && s.expireLeases() > 0 {
+			// Pool exhausted: expired leases were reclaimed, try again
+			addr = s.addressPool.Allocate(clientDUID)
+		}
 		if addr == nil {
 			return nil, fmt.Errorf("no addresses available")
 		}
@@ -1152,6 +1223,10 @@ func (s *Server) allocatePrefix(ctx context.Context, clientDUID string, iaid uin
 	// Fall back to legacy pool
 	if s.prefixPool != nil {
 		prefix := s.prefixPool.Allocate(clientDUID)
+		if prefix == nil && s.expireLeases() > 0 {
+			// Pool exhausted: expired leases were reclaimed, try again
+			prefix = s.prefixPool.Allocate(clientDUID)
+		}
 		if prefix == nil {
 			return nil, fmt.Errorf("no prefixes available")
 		}
